@@ -38,7 +38,7 @@ func (c15) Batches(tier string, seed uint64) []core.Batch {
 }
 
 func (c15) Mandatory(tier string) []string {
-	m := []string{"ar:members-returned", "ar:error", "ar:eof", "deb:loaded", "deb:error", "corrupt:magic-first-byte", "corrupt:magic-second-byte", "corrupt:magic-both",
+	m := []string{"ar:members-returned", "reader:overlong-SectionReader", "ar:error", "ar:eof", "deb:loaded", "deb:error", "corrupt:magic-first-byte", "corrupt:magic-second-byte", "corrupt:magic-both",
 		"corrupt:truncation", "corrupt:duplicate-member", "corrupt:two-control", "corrupt:two-data", "corrupt:reordered", "corrupt:size+1", "corrupt:size-1", "corrupt:random-bytes"}
 	for _, col := range []string{"name", "mtime", "uid", "gid", "mode", "size"} {
 		m = append(m, "corrupt:column-"+col)
@@ -57,14 +57,18 @@ type arOutcome struct {
 func (o arOutcome) String() string { return fmt.Sprintf("err=%v members=%v", o.err, o.members) }
 
 // iterateAr runs LoadAr+Next to the end under the monitors.
-func c15IterateAr(c *core.C, raw []byte, report bool, sized bool) (arOutcome, bool) {
+func c15IterateAr(c *core.C, raw []byte, report bool, kind int) (arOutcome, bool) {
 	var out arOutcome
 	// the step bound proper is on Next() calls (loop below); the read limiter only cuts a loop
 	// INSIDE one call and is generous, so that an implementation reading a header twice is not flagged
 	cr := &core.CountingReaderAt{In: bytes.NewReader(raw), HeaderLen: 60, Size: int64(len(raw)), Limit: 4*(len(raw)/60+1) + 16}
 	var src io.ReaderAt = cr
-	if sized {
+	switch kind {
+	case 1: // a reader that knows its exact size
 		src = core.SizedCountingReaderAt{CountingReaderAt: cr}
+	case 2: // the io.NewSectionReader(r, 0, 1<<62) idiom: a Size() that says nothing about the data
+		src = io.NewSectionReader(cr, 0, 1<<62)
+		c.Cover("reader:overlong-SectionReader")
 	}
 	ar, err := deb.LoadAr(src)
 	if err != nil {
@@ -161,6 +165,9 @@ func c15HeaderFor(raw []byte, size int64, content []byte) bool {
 	return false
 }
 
+// c15Warm: a small valid archive opened between repeated runs.
+var c15Warm = model.WriteAr([]model.ArMember{{Name: "debian-binary", Timestamp: 1, Mode: "100644", Data: []byte("2.0\n")}, {Name: "x", Timestamp: 1, Mode: "100644", Data: []byte("abc")}}, true)
+
 func tailInts(x []int64, n int) []int64 {
 	if len(x) > n {
 		return x[len(x)-n:]
@@ -169,10 +176,21 @@ func tailInts(x []int64, n int) []int64 {
 }
 
 func (p c15) arCase(c *core.C, raw []byte) {
-	first, interesting := c15IterateAr(c, raw, true, false)
-	for i := 0; i < 3; i++ {
-		// alternate between a plain ReaderAt and one that also has Size()
-		again, _ := c15IterateAr(c, raw, i == 0, i%2 == 0)
+	first, interesting := c15IterateAr(c, raw, true, 0)
+	for i := 0; i < 4; i++ {
+		// other archives are opened in between: the outcome for these bytes must not depend on what the process
+		// loaded before (recycled buffers, caches)
+		for _, other := range [][]byte{c15Warm, []byte("!<arch>\n" + "not a header, sixty bytes long ................................")} {
+			if a, err := deb.LoadAr(bytes.NewReader(other)); err == nil {
+				for k := 0; k < 4; k++ {
+					if _, err := a.Next(); err != nil {
+						break
+					}
+				}
+			}
+		}
+		// alternate between a plain ReaderAt, one that also has Size(), and an over-long SectionReader
+		again, _ := c15IterateAr(c, raw, true, (i+1)%3)
 		if again.String() != first.String() {
 			c.Failf("iterating the same bytes twice gave different outcomes:\n %s\n %s", first, again)
 			break
@@ -213,6 +231,8 @@ func (p c15) debCase(c *core.C, raw []byte) {
 		var src io.ReaderAt = cr
 		if sizedToggle = !sizedToggle; sizedToggle {
 			src = core.SizedCountingReaderAt{CountingReaderAt: cr}
+		} else if len(raw)%3 == 0 {
+			src = io.NewSectionReader(cr, 0, 1<<62)
 		}
 		d, err := deb.Load(src, "hostile.deb")
 		if cr.Exceeded && report {
